@@ -471,6 +471,8 @@ class BackendProvider(ABC):
         """
         if self.np.isarray(a) and a.dtype == 'O':
             result = [self.vec_fn(x, f) if self._is_list(x) else f(x) for x in a]
+            if kg_nest_shape(result) is None:
+                return kg_ragged_array(result, self.kg_asarray)
             return np.asarray(result, dtype=object)
         return f(a)
 
